@@ -309,7 +309,7 @@ func runTdpos(r *ev.Run) {
 			r.Count("tdpos.tiling.idle-ms", int(res.IdleMs))
 			r.Count("tdpos.tiling.first-slot-1ms-short", int(res.ShortFirst))
 			r.Count("tdpos.tiling.first-slot-vanished(period=1)", int(res.Vanished))
-			if ci == 0 || ci == len(box) {
+			if ci == len(box) || (c == tdposCfg{Period: 3, BlockNum: 2, ProposerNum: 3, Alt: 4, TermIv: 7, InitNs: 5}) {
 				r.Sample(map[string]interface{}{"part": "tdpos-tiling", "config": c, "slots_first_term": firstSlots(res, 8)})
 			}
 			if len(probs) > 0 || res.From < 0 {
@@ -587,8 +587,8 @@ func runXpoa(r *ev.Run) {
 				if res.IdleMs > 0 {
 					r.Violation("xpoa|schedule|idle-time", shape+": nobody entitled during some millisecond although xpoa has no hand-over interval", map[string]interface{}{"config": c})
 				}
-				if ci == 0 {
-					r.Sample(map[string]interface{}{"part": "xpoa-tiling", "config": c, "slots": firstSlots(res, 6)})
+				if c.Period == 3 && c.BlockNum == 2 && c.N == 3 && c.BaseMs != 0 && ci < 96 {
+					r.Sample(map[string]interface{}{"part": "xpoa-tiling", "scenario": sc.name, "config": c, "slots": firstSlots(res, 6)})
 				}
 				if len(probs) > 0 || res.From < 0 {
 					continue
